@@ -392,8 +392,12 @@ def aggFree : IR → Bool
   | .scons _ a b | .insertField a _ b | .tcons a b | .dictGet a b => aggFree a && aggFree b
   | .ite a b c | .streamFold _ _ a b c | .streamScan _ _ a b c => aggFree a && aggFree b && aggFree c
 
-/-- `free_vars` for nodes outside the aggregation context (on aggregation nodes: the value-scope variables of the value-scope
-children only; every statement that uses `fv` assumes `aggFree`) -/
+mutual
+/-- `free_vars` (without the `agg_capability` pseudo-variable, which is `usesAgg` below): the variables read from the value
+scope.  A `StreamAgg` also reads, through its query, what the query reads from the value scope and — the aggregation scope of the
+query being the value scope plus the element — what the query reads from its aggregation scope, except the element variable.
+Children in the aggregation scope (`AggLet` value, `AggFilter` condition, aggregator arguments) read nothing from the value
+scope. -/
 def fv : IR → List Name
   | .i32 _ | .i64 _ | .f32 _ | .f64 _ | .str _ | .bool _ | .na _ | .anil _ | .snil | .tnil => []
   | .ref x => [x]
@@ -406,10 +410,23 @@ def fv : IR → List Name
   | .streamMap x a b | .streamFilter x a b => fv a ++ remove x (fv b)
   | .streamFold acc v a z b => fv a ++ fv z ++ remove acc (remove v (fv b))
   | .streamScan acc v a z b => fv a ++ fv z ++ remove acc (remove v (fv b))
-  | .streamAgg _ a q => fv a ++ fv q
+  | .streamAgg y a q => fv a ++ fv q ++ remove y (fva q)
   | .aggLet _ _ b => fv b
   | .aggFilter _ b => fv b
   | .agg _ _ => []
+/-- `free_agg_vars`: the variables read from the (element environments of the) aggregation scope -/
+def fva : IR → List Name
+  | .i32 _ | .i64 _ | .f32 _ | .f64 _ | .str _ | .bool _ | .na _ | .anil _ | .snil | .tnil | .ref _ => []
+  | .cast a _ | .ascribe a _ | .isNA a | .un _ a | .arrayLen a | .toArray a | .toStream a | .getField a _ | .getTupleElement a _
+  | .toSet a | .toDict a => fva a
+  | .bin _ a b | .cmp _ a b | .acons a b | .arrayRef a b | .scons _ a b | .insertField a _ b | .tcons a b | .dictGet a b
+  | .let_ _ a b | .streamMap _ a b | .streamFilter _ a b => fva a ++ fva b
+  | .ite a b c | .streamFold _ _ a b c | .streamScan _ _ a b c => fva a ++ fva b ++ fva c
+  | .streamAgg _ a _ => fva a
+  | .aggLet y e b => fv e ++ remove y (fva b)
+  | .aggFilter c b => fv c ++ fva b
+  | .agg _ a => fv a
+end
 
 /-! ## Scoping (`_compute_type(env, agg_env, deep_typecheck=True)`: `Ref` asserts `name in env`)
 
@@ -490,9 +507,11 @@ def scopeOk (Γ : List Name) (Δ : Option (List Name)) : IR → Bool
 /-! ## Inlining the bindings the CSE renderer introduced
 
 Two kinds of lifted binding: `(Let eval __cse_N v b)` binds in the value scope, `(AggLet __cse_N False v b)` in the aggregation
-scope.  `agg_capability` (the pseudo-variable `AggFilter`, `AggLet`… re-bind in `renderable_bindings` so that an aggregation
-stays below them) is modelled by what it stands for: `usesAgg v` — the value of `v` depends on the aggregation scope `A` — and
-such a `v` may not be substituted across a node that changes `A` (`aggFilter`, `aggLet`, a `StreamAgg` query). -/
+scope.  `agg_capability` (the pseudo-variable that `AggFilter`, `AggExplode`, `AggGroupBy`, `AggArrayPerElement` and every
+aggregator application add to `free_vars` via `uses_agg_capability`, and that `AggFilter`… re-bind for their aggregation child in
+`renderable_bindings`, so that an aggregation is never lifted above them) is modelled by what it stands for: `usesAgg v` — the
+value of `v` depends on the aggregation scope `A` — and such a `v` may not be substituted across a node that changes `A`:
+never across an `AggFilter`; across an `AggLet y` only when `v` does not read `y` from the aggregation scope (`free_agg_vars`). -/
 
 /-- every name occurring in a term: references and binders -/
 def names : IR → List Name
@@ -508,10 +527,12 @@ def names : IR → List Name
   | .streamScan acc w a z b => acc :: w :: (names a ++ names z ++ names b)
 
 
-/-- does the value of the term depend on the ambient aggregation scope (an aggregation node not enclosed by a `StreamAgg` of
-the term itself)?  This is `agg_capability ∈ free_vars` -/
+/-- does the value of the term depend on the ambient aggregation scope?  This is `agg_capability ∈ free_vars`: added by
+aggregator applications and `AggFilter` (`uses_agg_capability`), inherited from children — but not from the query of a
+`StreamAgg`, which binds it, nor from aggregation-scope children. -/
 def usesAgg : IR → Bool
-  | .agg .. | .aggLet .. | .aggFilter .. => true
+  | .agg .. | .aggFilter .. => true
+  | .aggLet _ _ b => usesAgg b
   | .streamAgg _ a _ => usesAgg a
   | .i32 _ | .i64 _ | .f32 _ | .f64 _ | .str _ | .bool _ | .na _ | .ref _ | .anil _ | .snil | .tnil => false
   | .cast a _ | .ascribe a _ | .isNA a | .un _ a | .arrayLen a | .toArray a | .toStream a | .getField a _ | .getTupleElement a _
@@ -519,14 +540,6 @@ def usesAgg : IR → Bool
   | .bin _ a b | .cmp _ a b | .let_ _ a b | .acons a b | .arrayRef a b | .streamMap _ a b | .streamFilter _ a b
   | .scons _ a b | .insertField a _ b | .tcons a b | .dictGet a b => usesAgg a || usesAgg b
   | .ite a b c | .streamFold _ _ a b c | .streamScan _ _ a b c => usesAgg a || usesAgg b || usesAgg c
-
-/-- the variables a binder must not rebind between the binding site and a use of the bound expression: its free variables
-(aggregation-free expression), or — coarser, for an expression with aggregation nodes, whose aggregation-scope children also
-read the value scope through `StreamAgg` — every name occurring in it -/
-def capt (v : IR) : List Name := if aggFree v then fv v else names v
-
-/-- `x` does not occur free in `t` (coarse version for terms with aggregation nodes: does not occur at all) -/
-def notFree (x : Name) (t : IR) : Bool := if aggFree t then decide (x ∉ fv t) else decide (x ∉ names t)
 
 /-- plain (not capture-avoiding) substitution of `v` for the VALUE-scope variable `x`.  Aggregation-scope children (the
 condition of an `AggFilter`, the value of an `AggLet`, aggregator arguments) and `StreamAgg` queries are left alone: `x` is not
@@ -567,25 +580,26 @@ def subst (x : Name) (v : IR) : IR → IR
   | .aggFilter c b => .aggFilter c (subst x v b)
   | .agg op a => .agg op a
 
-/-- `subst x v t` means what it should when `F = capt v` and `dep = usesAgg v`:
+/-- `subst x v t` means what it should when `F = fv v`, `FA = fva v` and `dep = usesAgg v`:
 * on the way to a free occurrence of `x` no binder of `t` binds a variable of `F`;
-* if the value of `v` depends on the aggregation scope (`dep`), `x` does not occur below a node that changes that scope — the
-  body of an `AggFilter` or `AggLet` — (the `agg_capability` rule);
-* `x` does not occur inside a `StreamAgg` query (a block: nothing bound outside is referenced inside by the renderer). -/
-def substOk (x : Name) (F : List Name) (dep : Bool) : IR → Bool
+* if the value of `v` depends on the aggregation scope (`dep`), `x` does not occur free below a node that changes what `v`
+  sees of that scope: the body of an `AggFilter`, or of an `AggLet` that binds a variable of `FA` (the `agg_capability` rule);
+* `x` does not occur free inside a `StreamAgg` query (a block: nothing bound outside is referenced inside by the renderer). -/
+def substOk (x : Name) (F FA : List Name) (dep : Bool) : IR → Bool
   | .ref _ | .i32 _ | .i64 _ | .f32 _ | .f64 _ | .str _ | .bool _ | .na _ | .anil _ | .snil | .tnil => true
   | .cast a _ | .ascribe a _ | .isNA a | .un _ a | .arrayLen a | .toArray a | .toStream a | .getField a _ | .getTupleElement a _
-  | .toSet a | .toDict a => substOk x F dep a
+  | .toSet a | .toDict a => substOk x F FA dep a
   | .bin _ a b | .cmp _ a b | .acons a b | .arrayRef a b | .scons _ a b | .insertField a _ b | .tcons a b | .dictGet a b =>
-    substOk x F dep a && substOk x F dep b
-  | .ite a b c => substOk x F dep a && substOk x F dep b && substOk x F dep c
+    substOk x F FA dep a && substOk x F FA dep b
+  | .ite a b c => substOk x F FA dep a && substOk x F FA dep b && substOk x F FA dep c
   | .let_ y e b | .streamMap y e b | .streamFilter y e b =>
-    substOk x F dep e && (decide (y = x) || notFree x b || (decide (y ∉ F) && substOk x F dep b))
+    substOk x F FA dep e && (decide (y = x) || decide (x ∉ fv b) || (decide (y ∉ F) && substOk x F FA dep b))
   | .streamFold acc w a z b | .streamScan acc w a z b =>
-    substOk x F dep a && substOk x F dep z &&
-      (decide (acc = x ∨ w = x) || notFree x b || (decide (acc ∉ F) && decide (w ∉ F) && substOk x F dep b))
-  | .streamAgg _ a q => substOk x F dep a && decide (x ∉ names q)
-  | .aggLet _ _ b | .aggFilter _ b => decide (x ∉ names b) || (!dep && substOk x F dep b)
+    substOk x F FA dep a && substOk x F FA dep z &&
+      (decide (acc = x ∨ w = x) || decide (x ∉ fv b) || (decide (acc ∉ F) && decide (w ∉ F) && substOk x F FA dep b))
+  | .streamAgg y a q => substOk x F FA dep a && decide (x ∉ fv q ++ remove y (fva q))
+  | .aggFilter _ b => decide (x ∉ fv b) || (!dep && substOk x F FA dep b)
+  | .aggLet y _ b => decide (x ∉ fv b) || ((!dep || decide (y ∉ FA)) && substOk x F FA dep b)
   | .agg _ _ => true
 
 /-- substitution of `v` for the AGGREGATION-scope variable `x` (an `AggLet` binding): only aggregation-scope children of the
@@ -624,19 +638,20 @@ def substA (x : Name) (v : IR) : IR → IR
   | .aggFilter c b => .aggFilter (subst x v c) (substA x v b)
   | .agg op a => .agg op (subst x v a)
 
-/-- `substA x v t` means what it should (`F = fv v`, `v` aggregation-free): in every aggregation-scope child the value-scope
-substitution is capture-avoiding, and no `AggLet` on the way rebinds a variable of `v` -/
-def substAOk (x : Name) (F : List Name) : IR → Bool
+/-- `substA x v t` means what it should (`F = fv v`, `FA = fva v`, `dep = usesAgg v`): in every aggregation-scope child the
+value-scope substitution is fine (`substOk`), and no `AggLet` on the way rebinds a variable of `v` -/
+def substAOk (x : Name) (F FA : List Name) (dep : Bool) : IR → Bool
   | .ref _ | .i32 _ | .i64 _ | .f32 _ | .f64 _ | .str _ | .bool _ | .na _ | .anil _ | .snil | .tnil => true
   | .cast a _ | .ascribe a _ | .isNA a | .un _ a | .arrayLen a | .toArray a | .toStream a | .getField a _ | .getTupleElement a _
-  | .toSet a | .toDict a => substAOk x F a
+  | .toSet a | .toDict a => substAOk x F FA dep a
   | .bin _ a b | .cmp _ a b | .acons a b | .arrayRef a b | .scons _ a b | .insertField a _ b | .tcons a b | .dictGet a b
-  | .let_ _ a b | .streamMap _ a b | .streamFilter _ a b => substAOk x F a && substAOk x F b
-  | .ite a b c | .streamFold _ _ a b c | .streamScan _ _ a b c => substAOk x F a && substAOk x F b && substAOk x F c
-  | .streamAgg _ a _ => substAOk x F a
-  | .aggLet y e b => aggFree e && substOk x F false e && (decide (y = x) || (decide (y ∉ F) && substAOk x F b))
-  | .aggFilter c b => aggFree c && substOk x F false c && substAOk x F b
-  | .agg _ a => aggFree a && substOk x F false a
+  | .let_ _ a b | .streamMap _ a b | .streamFilter _ a b => substAOk x F FA dep a && substAOk x F FA dep b
+  | .ite a b c | .streamFold _ _ a b c | .streamScan _ _ a b c =>
+    substAOk x F FA dep a && substAOk x F FA dep b && substAOk x F FA dep c
+  | .streamAgg _ a _ => substAOk x F FA dep a
+  | .aggLet y e b => substOk x F FA dep e && (decide (y = x) || (decide (y ∉ F) && substAOk x F FA dep b))
+  | .aggFilter c b => substOk x F FA dep c && substAOk x F FA dep b
+  | .agg _ a => substOk x F FA dep a
 
 /-- the names `CSEAnalysisPass.uid` generates -/
 def isCse : Name → Bool
@@ -683,10 +698,10 @@ def inlineCse : IR → IR
 def inlineOk : IR → Bool
   | .let_ x v b =>
     inlineOk v && inlineOk b &&
-      (!isCse x || substOk x (capt (inlineCse v)) (usesAgg (inlineCse v)) (inlineCse b))
+      (!isCse x || substOk x (fv (inlineCse v)) (fva (inlineCse v)) (usesAgg (inlineCse v)) (inlineCse b))
   | .aggLet x v b =>
     inlineOk v && inlineOk b &&
-      (!isCse x || (aggFree (inlineCse v) && substAOk x (fv (inlineCse v)) (inlineCse b)))
+      (!isCse x || substAOk x (fv (inlineCse v)) (fva (inlineCse v)) (usesAgg (inlineCse v)) (inlineCse b))
   | .ref _ | .i32 _ | .i64 _ | .f32 _ | .f64 _ | .str _ | .bool _ | .na _ | .anil _ | .snil | .tnil => true
   | .cast a _ | .ascribe a _ | .isNA a | .un _ a | .arrayLen a | .toArray a | .toStream a | .getField a _ | .getTupleElement a _
   | .toSet a | .toDict a | .agg _ a => inlineOk a
